@@ -34,6 +34,11 @@ REGISTRATION = {
 
 MODULES = ["OllamaVerif.Properties.C03"]
 THEOREMS = [
+    "OllamaVerif.C03.pull_success_complete",
+    "OllamaVerif.C03.pull_success_sizes",
+    "OllamaVerif.C03.pull_fail_preserves_store",
+    "OllamaVerif.C03.pull_fail_preserves_names",
+    "OllamaVerif.C03.pull_fail_blobs_partial",
     "OllamaVerif.C03.challenge_panics_iff",
     "OllamaVerif.C03.challenge_total_fixed",
     "OllamaVerif.C03.challenge_total_partial",
